@@ -35,6 +35,12 @@ def _det(a):
     return bool(a) and a.get("d", 0) != 0
 
 
+def p_n10(case, rec, exp):
+    """Go export of a view whose buffer is detached: wild slice / panic (I) instead of an empty slice (S)"""
+    o, rs, ri = _at(case, exp, ("goexport",))
+    return bool(o) and rs.startswith("RExp 0") and (ri.startswith("RExp") or ri == "RPanic")
+
+
 CFG = {
     "id": "C17",
     "harness": "c17",
@@ -57,15 +63,16 @@ CFG = {
              "non-zero byteOffset, copyWithin, fill, slice, subarray (clamping), reverse, sort, DataView get*/set* of every kind "
              "with littleEndian true/false/omitted, ArrayBuffer.prototype.slice, Go-side writes through the owner's []byte and "
              "Go-side Detach(), includes/indexOf/lastIndexOf (search values taken from the elements, boundary classes, NaN, -0, "
-             "undefined, wrong type; detaching fromIndex), arguments whose valueOf detaches a buffer; values from boundary classes (+-0, NaN, +-Inf, 2^31, "
+             "undefined, wrong type, the would-be element just in front of / behind the view with extreme fromIndex; detaching fromIndex), "
+             "Go-side Value.Export()/ExportTo(&[]T) of a view (window offset, length, bytes; writes through the native slice), arguments whose valueOf detaches a buffer; values from boundary classes (+-0, NaN, +-Inf, 2^31, "
              "2^32+-1, 2^53, 2^63+-2^11, clamping ties, binary32 halfway cases, BigInts beyond 64 bits). After every step: result "
              "(numbers as bit patterns), error class, canaries, the set of detached buffers and a 32-bit hash of all buffer memory; "
              "at the end a 61-bit hash. A case fails if the implementation differs from S at any step, or if any range touched by the "
              "model's own MI or S reading on that history is outside its view or on a detached buffer. Non-trivial = at least 5 "
-             "executed steps or a detach; distinct = by hash of the case. No input region is avoided (C17 has no open finding); the only "
-             "exclusion is a NaN moved between the two float kinds by set(typedArray) (implementation-defined payload)."),
+             "executed steps or a detach; distinct = by hash of the case. The region of the one open finding (C17-N10: Export of a view on a detached buffer) is left to the corpus; "
+             "the only other exclusion is a NaN moved between the two float kinds by set(typedArray) (implementation-defined payload)."),
     "theorem_names": ["touched_in_view", "allowed_in_buffer", "inv_init", "inv_step", "touched_in_view_history",
-                      "bytes_eq_spec", "int_conv_eq", "raw_roundtrip", "raw_roundtrip_bits", "bits64_roundtrip", "bits32_roundtrip", "of_bits_wf",
+                      "bytes_eq_spec", "int_conv_eq", "export_detached_refuted", "raw_roundtrip", "raw_roundtrip_bits", "bits64_roundtrip", "bits32_roundtrip", "of_bits_wf",
                       "le_codec", "clamp_range", "clamp_spec"],
     "allowed_axioms": [],
     "trusted_base": [
@@ -79,11 +86,11 @@ CFG = {
         "the bit pattern of a stored NaN (implementation-defined in ECMA-262) is pinned to goja's",
         "the implementation is tied to the model only on the generated histories (correspondence), not by proof",
     ],
-    "predicates": {},
+    "predicates": {"C17.export_view_on_detached_buffer": p_n10},
     "manifest": {
         "text": ("proof: a byte-list model of ArrayBuffers (with a detached flag; a detached buffer keeps its bytes, they are the Go "
                  "owner's memory), typed-array views of the 11 element kinds and DataViews, in two readings (S = ECMA-262, I = goja's "
-                 "arithmetic after the round-1 repairs); every one of 22 operations (constructors incl. new T(typedArray), element get/set, set(array|typed "
+                 "arithmetic after the round-1 repairs); every one of 24 operations (constructors incl. new T(typedArray), Go Export()/ExportTo of a typed-array view read and written through, element get/set, set(array|typed "
                  "array), copyWithin, fill, slice, subarray, reverse, sort, includes/indexOf/lastIndexOf, DataView get/set, "
                  "ArrayBuffer.slice, Go write, Go detach, length getters) returns the byte ranges it touched with the liveness of the buffer. Proved for all inputs, no axioms: "
                  "touched_in_view (both readings: under the view invariant every touched range is on a live buffer and inside the view / "
